@@ -12,7 +12,8 @@ import random
 
 from .. import canon_session, doccheck, editgen, engine_oracles, engine_run, gen, ooxml, sem
 
-PROFILE = {"vmerge": 0.0, "point_comment": 0.0, "hyperlink": 0.0, "comment": 0.3, "reply": 0.5, "overlap_comment": 0.05}
+PROFILE = {"vmerge": 0.0, "point_comment": 0.0, "hyperlink": 0.0, "comment": 0.3, "reply": 0.5, "overlap_comment": 0.05,
+           "shuffle_comments": 0.35, "comment_id_gap": 0.3}
 PROFILES = {"default": PROFILE, "threads": dict(PROFILE, comment=0.5, reply=0.7, blocks=(1, 4))}
 KINDS = ["replace", "replace", "delete", "delete", "extend", "prefix", "shared", "multiline", "heading", "markdown"]
 
@@ -30,7 +31,10 @@ def gen_replies(rng, doc):
         if ids and rng.random() < 0.75:
             acts.append({"action": "REPLY", "target_id": "Com:" + rng.choice(ids), "text": "reply " + str(rng.randint(0, 999))})
         else:
-            acts.append({"action": "REPLY", "target_id": rng.choice(["Com:9999", "Com:", "Chg:1", "9998"]), "text": "lost?"})
+            nums = [int(i) for i in ids if i.isdigit()]
+            gaps = [str(k) for k in range(0, max(nums, default=0) + 2) if str(k) not in ids]
+            acts.append({"action": "REPLY", "target_id": rng.choice(["Com:9999", "Com:", "Chg:1", "9998"] + ["Com:" + g for g in gaps[:3]]),
+                         "text": "lost?"})
     return acts
 
 
@@ -44,7 +48,19 @@ def work(case):
     texts = engine_run.texts_of(data)
     edits = case.get("edits")
     if edits is None:
-        edits = editgen.gen_batch(rng, case["doc"], texts, rng.randint(1, 3), KINDS, comment_p=0.75)
+        # a third of the batches may also address text inside another reviewer's pending insertion (a counter-proposal)
+        # (whole-target replacements only: the engine replaces the insertion — the exception documented with C01 —
+        # and a deletion or a partial change there leaves no mark of this run a comment could explain)
+        if rng.random() < 0.3:
+            edits = editgen.gen_batch(rng, case["doc"], texts, 1, ["replace"], comment_p=0.9, states=("ins",))
+            more = [e for e in editgen.gen_batch(rng, case["doc"], texts, 1, KINDS, comment_p=0.75)
+                    if not any(e["pi"] == x["pi"] for x in edits)]
+            for e in more:     # (comment texts identify the edits in the oracle: keep them distinct)
+                if e.get("comment"):
+                    e["comment"] += " second"
+            edits += more
+        else:
+            edits = editgen.gen_batch(rng, case["doc"], texts, rng.randint(1, 3), KINDS, comment_p=0.75)
         for e in edits:
             e["locatable"] = True
     r = engine_run.run_edits(data, edits)
